@@ -210,9 +210,21 @@ def harvest : (r : Req) → Inter M r → Inter M r
   | .range _ _ sub, x => KMap.mapVals (harvest sub) x
   | .filter _ _ sub, x => (x.1, harvest sub x.2)
   | .topHits _ _ _ _, x => x
-  -- the per-segment eviction down to `size` buckets is not modelled: it keeps the first
-  -- `size` buckets in key order, which cannot change the first `size` of the merged result
+  -- the per-segment eviction down to `size` buckets is modelled separately (`collectSegComposite`,
+  -- `compMergeFruits`) and proved invisible in the returned page (C14_composite_merge_fruits_eq_evalAggPV)
   | .composite _ _ _ sub, x => KMap.mapVals (harvest sub) x
+
+/-- no terms node anywhere in the request: nothing is cut at segment level -/
+def Req.cutFree : Req → Bool
+  | .none => true
+  | .both a b => a.cutFree && b.cutFree
+  | .metric _ _ => true
+  | .terms _ _ => false
+  | .hist _ sub => sub.cutFree
+  | .range _ _ sub => sub.cutFree
+  | .filter _ _ sub => sub.cutFree
+  | .topHits _ _ _ _ => true
+  | .composite _ _ _ sub => sub.cutFree
 
 /-- the fruit of one segment -/
 def collectSeg (r : Req) (docs : List Doc) : Inter M r := harvest r (collect r docs)
